@@ -62,7 +62,29 @@ def gen_history(ctx, rng, cfg, nops):
         k2 = rng.randint(k + 1, len(ops))
         ops.insert(k2, el)
         if rng.random() < 0.4 and not cfg.get('udf'):
-            ops.insert(rng.randint(k2 + 1, len(ops)), {'op': 'isohybrid', 'kw': rng.choice([{}, {}, {'mac': True}, {'efi': True}])})
+            k3 = rng.randint(k2 + 1, len(ops))
+            hkw = rng.choice([{}, {}, {'mac': True}, {'efi': True}, {'efi': True}])
+            if hkw:
+                # EFI / Mac hybrids need El Torito EFI sections: one more boot file with one (two) EFI entries
+                efi = {'op': 'addfp', 'cid': 901, 'n': 4096, 'iso': '/EFIIMG.;1'}
+                if cfg.get('rr'):
+                    efi['rr'] = 'efiimg'
+                if cfg.get('joliet'):
+                    efi['joliet'] = '/efiimg'
+                extra = [efi, {'op': 'eltorito', 'boot': '/EFIIMG.;1', 'kw': {'efi': True}}]
+                if hkw.get('mac'):
+                    extra.append({'op': 'eltorito', 'boot': '/EFIIMG.;1', 'kw': {'efi': True}})
+                ops[k3:k3] = extra
+                k3 += len(extra)
+            ops.insert(k3, {'op': 'isohybrid', 'kw': hkw})
+            if rng.random() < 0.35:
+                # El Torito is taken away while the hybrid MBR is attached (refused, or the MBR goes with it - in any
+                # case the same under every schedule), sometimes after the MBR was removed properly
+                k4 = rng.randint(k3 + 1, len(ops))
+                if rng.random() < 0.5:
+                    ops.insert(k4, {'op': 'rmisohybrid'})
+                    k4 += 1
+                ops.insert(rng.randint(k4, len(ops)), {'op': 'rmeltorito'})
         elif rng.random() < 0.2:
             ops.insert(rng.randint(k2 + 1, len(ops)), {'op': 'rmeltorito'})
     return ops
